@@ -214,6 +214,42 @@ Enabled(s, r) == ToSet(r.need) \subseteq ForwardWatches(s)
 \* the part of the state the harness can observe (the decode states are hidden)
 Obs(s) == [h |-> s.h, tip |-> s.tip, win |-> s.win, ls |-> s.ls]
 
+
+---------------------------------------------------------------------------
+(***************************************************************************)
+(* The request alphabet: every request that deviates from a correct one in  *)
+(* at most maxDev dimensions (header link, proof of work, bits, proof       *)
+(* class, delivery kind, attesting oracles, previous-headers argument).     *)
+(***************************************************************************)
+AllAtt == <<"o1", "o2", "o3">>
+AttSeqs == {<<"o1">>, <<"o2">>, <<"o3">>, <<"o1", "o2">>, <<"o1", "o3">>, <<"o2", "o3">>, AllAtt}
+B2N(b) == IF b THEN 1 ELSE 0
+
+Dev(r) == B2N(r.link # "tip") + B2N(r.pow # "ok") + B2N(r.db # 0) + B2N(r.pf # "good")
+          + B2N(r.kind \in {"streamOther", "block"}) + B2N(r.att # AllAtt)
+          + B2N(r.prev \notin {"-", "right"})
+
+WellFormed(r) == r.kind \in StreamKinds => r.pf \notin {"omit", "badfh"}
+
+NeedOf(c) == IF Spends(c) = {} THEN <<>> ELSE <<CHOOSE x \in Spends(c) : TRUE>>
+
+RawRequests(Contents, Dbs) ==
+  [op : {"add"}, link : {"tip", "fork"}, pow : {"ok", "bad"}, db : Dbs, c : Contents,
+   kind : {"compact", "stream", "streamOther", "block"},
+   pf : {"good", "wrongheight", "wrongblock", "badsig", "omit", "badfh"}, att : AttSeqs, prev : {"-"}]
+  \cup
+  [op : {"rm"}, link : {"tip"}, pow : {"ok"}, db : {0}, c : {"-"},
+   kind : {"compact", "stream", "streamOther", "block"},
+   pf : {"good", "wrongheight", "wrongblock", "badsig", "omit", "badfh"}, att : AttSeqs,
+   prev : {"right", "zerofh", "wrongfh", "wronghdr"}]
+
+Decorate(r) == [op |-> r.op, link |-> r.link, pow |-> r.pow, db |-> r.db, c |-> r.c, kind |-> r.kind,
+                pf |-> r.pf, att |-> r.att, prev |-> r.prev, need |-> NeedOf(r.c),
+                probe |-> B2N(Dev(r) = 0 /\ r.c \in {"e", "-"})]
+
+Requests(maxDev, Contents, Dbs) ==
+  {Decorate(r) : r \in {x \in RawRequests(Contents, Dbs) : Dev(x) <= maxDev /\ WellFormed(x)}}
+
 ---------------------------------------------------------------------------
 (***************************************************************************)
 (* The property, stated independently of the order of checks in the code.   *)
@@ -260,12 +296,15 @@ MoveValid(K, pre, r, resp, post) ==
         /\ MayRetreat(K, pre, r)
         /\ post.h = pre.h - 1 /\ post.tip = pre.win[1] /\ post.win = Tail(pre.win)
 
+\* streaming the block (block_chunk, accepted requests of their own) may set saw_block
+NoSb(o) == [o EXCEPT !.ls = [k \in DOMAIN o.ls |-> [o.ls[k] EXCEPT !.m.sb = TRUE]]]
+
 InitGhost == [moveOK |-> TRUE, frameOK |-> TRUE, laterOK |-> TRUE]
 
 \* one observed request
 Ghost(g, K, pre, r, resp, chg, post) ==
   [g EXCEPT !.moveOK = g.moveOK /\ MoveValid(K, pre, r, resp, post),
-            !.frameOK = g.frameOK /\ (resp.ok = 0 => chg = 0 /\ post = pre)]
+            !.frameOK = g.frameOK /\ (resp.ok = 0 => chg = 0 /\ NoSb(post) = NoSb(pre))]
 
 \* one observed probe: request r was accepted in this state; it was applied again right after
 \* some refused request q: it must still be accepted
